@@ -3,6 +3,8 @@
 MC   MCRender.* : RenderImpl (code-shaped two-pass diff) x Screen satisfies
      RenderSpec (Shown, SameAsScratch) on the CLOSURE of small screens;
      MCLoop.*   : run_render with a lossy frame queue.
+GEN  RenderRunGen: every (image column, image, blank face, character column)
+     history of a dirty blank run meeting a kept image on a 2x6 screen.
 GEN  RenderGen  : every in-domain unambiguous surface of a small screen.
 RPL  c01-pairs  : all ordered pairs (+clear, +recreate) through the real renderer.
 DRV  c01-drive / c01-loop : seeded random histories on larger screens
@@ -90,6 +92,10 @@ def run(ctx):
     for h, w_, n, im in ([(1, 4, 300, 0), (2, 4, 200, 0), (1, 4, 200, 1)] if q else [(1, 4, 3000, 0), (2, 4, 3000, 0), (2, 6, 2000, 0), (1, 4, 2000, 1), (2, 4, 2000, 1)]):
         add(f"loop{h}x{w_}i{im}", h, w_, "loop", ["c01-loop", "--h", h, "--w", w_, "--n", n, "--seed", seed, "--imgs", im, "--base", base])
         base += n
+    # targeted histories: a dirty blank run that meets the area of an image which stays on screen (RenderRunGen.tla)
+    runs_p = ctx.path("gen", "runs2x6.ndjson")
+    rg = lib.tlc("render/RenderRunGen", "RenderRunGen.cfg", env={"OUT": runs_p}, workers=1, check=True)
+    add("runs2x6", 2, 6, "hist", ["c01-replay"], stdin=runs_p)
     # generated surfaces -> pairs
     gens = [(1, 3, "{0,1,2,4,6,9}", 1500 if q else 0), (2, 2, "{0,1,4,6,7}", 1500 if q else 0), (1, 2, "{0,1,13,14}", 0)]
     if not q:
